@@ -624,7 +624,11 @@ func (tr *FnTrans) instr(st *BState, in ssa.Instruction) {
 				tr.doCall(st, d)
 			case tr.in[d.Block()] != nil:
 				// a defer statement that only some paths to this return executed: its effects may
-				// or may not happen; be conservative and forget the heap
+				// or may not happen; be conservative and forget the heap — unless the deferred
+				// callee is known not to write memory the proof reads (mutex unlocks, logging)
+				if tr.eng.isPureCallee(calleeName(d.Common())) {
+					continue
+				}
 				st.heap = tr.newRoot()
 				tr.note("conditionally executed defer: heap forgotten at function exit")
 			}
